@@ -5,8 +5,12 @@ package deflate
 
 import (
 	"compress/flate"
+	"errors"
 	"io"
 )
+
+// errWriterClosed is stored in Writer.err once Close has succeeded, like compress/flate does.
+var errWriterClosed = errors.New("flate: closed writer")
 
 type Writer struct {
 	err error
@@ -114,6 +118,9 @@ func (w *Writer) Flush() (err error) {
 }
 
 func (w *Writer) Close() (err error) {
+	if w.err == errWriterClosed {
+		return nil
+	}
 	if w.err != nil {
 		return w.err
 	}
@@ -123,6 +130,8 @@ func (w *Writer) Close() (err error) {
 	err = w.lc.Close()
 	if err != nil {
 		w.err = err
+		return err
 	}
-	return err
+	w.err = errWriterClosed
+	return nil
 }
